@@ -90,6 +90,14 @@ func NewSparseFile(name string, idx Index, s Store, opt SparseFileOptions) (*Spa
 		return nil, err
 	}
 
+	// The saved state (if any) wasn't used, it doesn't describe the file any
+	// longer. Replace it now, it'd be trusted on the next start otherwise.
+	if opt.StateSaveFile != "" && opt.StateSaveFile != opt.StateInitFile {
+		if err := sf.WriteState(); err != nil {
+			return nil, err
+		}
+	}
+
 	// Try to initialize the sparse file from a prior state file if one is provided.
 	// This will concurrently load all chunks marked "done" in the state file and
 	// write them to the sparse file.
@@ -101,6 +109,12 @@ func NewSparseFile(name string, idx Index, s Store, opt SparseFileOptions) (*Spa
 		defer initFile.Close()
 		if err := loader.preloadChunksFromState(initFile, opt.StateInitConcurrency); err != nil {
 			return nil, err
+		}
+		// Same as above if the state file doubles as the init file, now that it's been read
+		if opt.StateSaveFile == opt.StateInitFile {
+			if err := sf.WriteState(); err != nil {
+				return nil, err
+			}
 		}
 	}
 
